@@ -9,7 +9,7 @@ import subprocess
 from . import core, cxx
 from .runtime_checks import fixed_models, known_h
 
-YIELDS = 'log/api/Select log/api/Deselect handler/user lock'
+YIELDS = 'log/ handler/user lock'        # every log line of the selector, every user handler, every lock operation
 SETUP = ['construct 111', 'register A', 'register B', 'register C', 'bind * * -', 'bind * * A', 'bind * * B', 'bind * * C', 'final',
          'arbiter api Acquire Free 1 0', 'yielding 1 ' + YIELDS]
 
@@ -29,41 +29,45 @@ def plan(hist):
             thr = f't{ncall}'
             cur[cli] = thr
             cmds.append(f'call {thr} api {cli} ' + ('Acquire 7' if act == 'ClaimEnter' else 'Free'))
+            expect.append({'step': step})
+            cmds.append(f'run {thr} post')
             expect.append({'step': step, 'blocked_has': thr})
         elif act == 'DispatchClaimGranted':
             cmds.append('pump')
-            expect.append({'step': step, 'parked': {cur[cli]: f'log/api/Select/{cli}'}, 'comp_event': 'Acquire'})
+            expect.append({'step': step, 'parked_prefix': {cur[cli]: 'log/'}, 'comp_event': 'Acquire'})
         elif act == 'DispatchClaimDenied':
             cmds.append('pump')
             expect.append({'step': step, 'done': {cur[cli]: 0}, 'comp_event': 'Acquire'})
         elif act == 'DispatchRelease':
             cmds.append('pump')
-            expect.append({'step': step, 'parked': {cur[cli]: f'log/api/Deselect/{cli}'}, 'comp_event': 'Free'})
+            expect.append({'step': step, 'parked_prefix': {cur[cli]: 'log/'}, 'comp_event': 'Free'})
         elif act == 'Select':
-            # exactly one critical section: the thread reaches the selector lock once, then returns
-            cmds.append(f'go {cur[cli]}')
+            # the thread reaches the selector lock, then (through however many critical sections it takes) returns
+            cmds.append(f'run {cur[cli]} lock')
             expect.append({'step': step, 'parked': {cur[cli]: 'lock'}})
-            cmds.append(f'go {cur[cli]}')
+            cmds.append(f'run {cur[cli]}')
             expect.append({'step': step, 'done': {cur[cli]: 1}})
         elif act == 'Deselect':
-            cmds.append(f'go {cur[cli]}')
+            cmds.append(f'run {cur[cli]} lock')
             expect.append({'step': step, 'parked': {cur[cli]: 'lock'}})
-            cmds.append(f'go {cur[cli]}')
+            cmds.append(f'run {cur[cli]}')
             expect.append({'step': step, 'done': {cur[cli]: 0}})
         elif act == 'OutBegin':
             nev += 1
             evname = f'ev{nev}'
-            # the delivery takes the selector lock exactly once and, if somebody is selected, calls the handler inside
+            # the delivery takes the selector lock and, if somebody is selected, calls the handler inside
             cmds.append(f'comp {evname} api Done 5')
+            expect.append({'step': step})
+            cmds.append(f'run {evname} lock')
             expect.append({'step': step, 'parked': {evname: 'lock'}})
-            cmds.append(f'go {evname}')
+            cmds.append(f'run {evname}')
             if cli == 'none':
                 expect.append({'step': step, 'done': {evname: 0}, 'delivered': None})
             else:
                 expect.append({'step': step, 'parked_prefix': {evname: 'handler/user/api/Done'}, 'delivered': cli})
         elif act == 'OutEnd':
             if cli != 'none':
-                cmds.append(f'go {evname}')
+                cmds.append(f'run {evname}')
                 expect.append({'step': step, 'done': {evname: 0}})
         # ClaimDenied: the caller has already returned in the implementation (no separate step)
     return cmds, expect, cur, evname
@@ -79,7 +83,7 @@ def replay(job):
         waiting = [c for c, st in case['pc'].items() if st in ('sel', 'desel')]
         if waiting:
             probe = cur[waiting[0]]
-            extra = [f'go {probe}', f'try {probe} 150', f'go {evname}']
+            extra = [f'run {probe} lock', f'try {probe} 150', f'run {evname}', f'run {probe}']
     replies = prog.run(SETUP + cmds + extra, timeout=240)
     if any(r.get('cmd') in ('CRASH', 'TIMEOUT') for r in replies):
         return [('driver run', 'completes', json.dumps(replies[-1])[:300])], []
@@ -130,9 +134,10 @@ def replay(job):
         if rep.get('res', {}).get('progressed', True):
             return [('mutual exclusion probe', f'{probe} cannot enter Select/Deselect while the out-event handler holds the lock',
                      rep)], strict
-        rep2 = replies[base + len(cmds) + 2]
-        if probe not in rep2.get('done', {}) or evname not in rep2.get('done', {}) or not rep2.get('quiet', True):
-            return [('after the handler returns', f'{evname} and {probe} both complete', rep2)], strict
+        rep2, rep3 = replies[base + len(cmds) + 2], replies[base + len(cmds) + 3]
+        finished = dict(rep2.get('done', {}), **rep3.get('done', {}))
+        if probe not in finished or evname not in finished or not rep3.get('quiet', True):
+            return [('after the handler returns', f'{evname} and {probe} both complete', [rep2, rep3])], strict
     return [], strict
 
 
